@@ -116,9 +116,15 @@ func firstN(a []string, n int) []string {
 func hexs(b []byte) string { return fmt.Sprintf("%x", b) }
 
 func runC02(w *W) {
+	c02SkelValidate(w)
 	cal := calibrate(w, true)
-	w.stats.Extra = map[string]any{"calibrated_K": cal.K, "calibrated_M_bytes_per_input_byte": cal.M, "calibration_statements": cal.N, "safety_factor": safetyFactor,
-		"worst_K_statement": trunc(cal.WorstK, 200)}
+	if w.stats.Extra == nil {
+		w.stats.Extra = map[string]any{}
+	}
+	for k, v := range map[string]any{"calibrated_K": cal.K, "calibrated_M_bytes_per_input_byte": cal.M, "calibration_statements": cal.N, "safety_factor": safetyFactor,
+		"worst_K_statement": trunc(cal.WorstK, 200)} {
+		w.stats.Extra[k] = v
+	}
 	var ms runtime.MemStats
 	fuzzSpace(w, func(c fuzzCase) {
 		w.Begin(c.Idx, c.Input, c.Desc)
